@@ -421,6 +421,35 @@ theorem inline_types_sound : ∀ (declared : List Ty) (ws : List RtVal),
     simp only [inlineTypes, List.map_cons, conformsAll, Bool.and_eq_true]
     exact ⟨stripDim_sound _ w t h.1, inline_types_sound ts ws h.2⟩
 
+/-- What `inline` would need for the declared output types to carry over: an argument whose type
+    *refines* the declared input type only ever holds values of the declared type (so the hypothesis
+    of `inline_types_sound` — m runs on inputs of its declared types — is met). -/
+theorem inline_arg_refines_sound (v : RtVal) (arg decl : Ty) (h : refines arg decl = true)
+    (hc : conforms v (some arg) = true) : conforms v (some decl) = true :=
+  refines_sound v arg decl h hc
+
+/-- But `inline` only asks for *compatibility* (`_subtype`): an argument of type `f32[N]` is accepted
+    for a declared `f32[3]`, and a value of shape `(1,)` conforms to the former, not to the latter — so
+    the declared output types are reported for runs the model's contract does not cover
+    (known finding `Inline:result:shape:argument-weaker-than-declared`). -/
+theorem inline_arg_compatible_counterexample :
+    ∃ (v : RtVal) (arg decl : Ty), inlineArgAccepted arg decl = true ∧
+      conforms v (some arg) = true ∧ conforms v (some decl) = false :=
+  ⟨⟨.f32, [1]⟩, ⟨.f32, some [.named "N"]⟩, ⟨.f32, some [.const 3]⟩, by decide, by decide, by decide⟩
+
+/-- Acceptance is weaker than refinement (every refining argument is accepted). -/
+theorem refines_imp_accepted : ∀ (as ds : List Dim),
+    (ds.zip as).all (fun p => refinesDim p.1 p.2) = true → as.length = ds.length →
+    compatDims as ds = true
+  | [], [], _, _ => rfl
+  | [], _ :: _, _, h => by simp at h
+  | _ :: _, [], _, h => by simp at h
+  | a :: as, d :: ds, hall, hl => by
+    simp only [List.zip_cons_cons, List.all_cons, Bool.and_eq_true] at hall
+    simp only [compatDims, Bool.and_eq_true]
+    refine ⟨?_, refines_imp_accepted as ds hall.2 (by simpa using hl)⟩
+    cases d <;> cases a <;> simp_all [refinesDim, compatDim]
+
 /-! ## Loop -/
 
 /-- Soundness of a Loop inference routine `inf` for the carried outputs, for declared argument /
